@@ -297,6 +297,21 @@ class Interp:
             return VInt(simp(-zint(v.t) - 1))
         raise Unsupported("unary %s on %r" % (type(e.op).__name__, v))
 
+    def e_Yield(self, e, fr):
+        """generator functions are verified as the sequence of values they hand out: every `yield v` is an obligation
+        point for the clauses under the contract key 'yields' (specifications over the function's locals and `value`);
+        the value sent back in is None (plain iteration).  A function with yields and no such clause is outside the
+        subset."""
+        v = self.eval(e.value, fr) if e.value is not None else NONE
+        c = self.E.contract_of(fr.finfo.qualname) or {}
+        ys = c.get("yields")
+        if not ys:
+            raise Unsupported("yield in a function whose contract has no 'yields' clause")
+        for lab, spec in (ys.items() if isinstance(ys, dict) else enumerate(ys)):
+            t = self.E.eval_spec(self, spec, fr, {"value": v})
+            self.st.oblige("%s::yields(%s)" % (fr.finfo.qualname, lab), self.truthy(t))
+        return NONE
+
     def e_IfExp(self, e, fr):
         c = self.eval(e.test, fr)
         if fr.spec:
